@@ -11,7 +11,7 @@ SOURCES = ["mls-rs/src/group/key_schedule.rs", "mls-rs/src/group/secret_tree.rs"
 
 
 def run(ctx):
-    proved = common.prove(ctx, ["MlsVerif.Props.C13"])
+    proved = common.prove(ctx, ["MlsVerif.Props.C13", "MlsVerif.Props.C13Transcript"])
     ctx.cov["source_hashes"] = common.source_hashes(SOURCES)
     if not common.cargo_build(ctx):
         ctx.violation("correspondence", "harness does not build against /repo", {"log": getattr(ctx, "build_failure", "")}, no_input=True)
@@ -24,6 +24,23 @@ def run(ctx):
                     "samples": r["samples"], "query_histogram": r["kinds"], "error_kinds": r.get("errors", {}),
                     "traces_validated_against_impl": r["rows"], "correspondence_differences": r["ndiff"],
                     "suites": r["kv"].get("suites", "")})
+    # transcript hashes and membership tags of REAL messages: random histories with public handshake messages; the model decodes
+    # each message with the generated codec records and recomputes confirmed / interim transcript hash and membership tag
+    n = "150" if ctx.tier == "thorough" else "12"
+    r2 = common.correspond(ctx, ["hist", "--histories", n, "--suites", "1,2,3" if ctx.tier == "quick" else "1,2,3,4,5,6,7", "--providers", "mixed",
+                                 "--focus", "C13"], "tree", "hist-tree")
+    th_rows = r2["kinds"].get("th", 0) + r2["kinds"].get("mtag", 0)
+    ctx.cov["transcript_rows"] = {"th": r2["kinds"].get("th", 0), "mtag": r2["kinds"].get("mtag", 0), "stream_rows": r2["rows"], "differences": r2["ndiff"]}
+    ctx.cov["traces_validated_against_impl"] = r["rows"] + r2["rows"]
+    ctx.cov["evaluations"] = r["rows"] + r2["rows"]
+    ctx.cov["correspondence_differences"] = r["ndiff"] + r2["ndiff"]
+    if not r2["ok"]:
+        ctx.violation("correspondence", "history harness or model driver failed", {"log": r2["out"][-1500:]}, no_input=True)
+    if r2["ndiff"]:
+        ctx.violation("correspondence", "a transcript hash / membership tag (or a tree-layer row) of a real history differs from the model's recomputation from the message bytes",
+                      {"first_differing_rows": r2["diffs"], "total": r2["ndiff"]})
+    if th_rows == 0:
+        ctx.violation("correspondence", "no transcript rows were produced (no public handshake message in the histories)", {}, no_input=True)
     if not r["ok"]:
         ctx.violation("correspondence", "harness or model driver failed", {"log": r["out"][-1500:]}, no_input=True)
     if r["ndiff"]:
@@ -34,7 +51,7 @@ def run(ctx):
         ctx.violation("proof", "theorem(s) of MlsVerif.Props.C13 no longer check", ctx.proof_failure, no_input=not r["ndiff"])
     ctx.assumptions += ["providers reject a PRK shorter than Nh, an empty IKM and an output length of 0 (OpenSSL) before deriving; generators stay inside that domain",
                         "SHA-2/HMAC/HKDF reference written in Lean (checked against published vectors and python hashlib), not proved",
-                        "confirmed/interim transcript hashes and membership tags are compared at group level by the C01 check (they need real messages)"]
+                        "confirmed / interim transcript hashes and membership tags are recomputed from the raw bytes of real public handshake messages (decoded by the generated codec model); encrypted handshake messages are covered at group level by the C01 agreement oracle only"]
     return ctx.finish("proof")
 
 
